@@ -44,6 +44,16 @@ TARGETS = [
         "DocumentationAggregator.process_ct_add_test",
         "DocumentationAggregator.process_ct_add_section",
         "DocumentationAggregator.enterDocumented_module",
+        # batch 4: the stateful methods (definition stack, class stack, awaiting slot)
+        "DocumentationAggregator.process_function",
+        "DocumentationAggregator.process_macro",
+        "DocumentationAggregator.process_cmake_parse_arguments",
+        "DocumentationAggregator.process_cpp_class",
+        "DocumentationAggregator.process_cpp_attr",
+        "DocumentationAggregator.process_cpp_member",
+        "DocumentationAggregator.process_cpp_constructor",
+        "DocumentationAggregator.enterCommand_invocation",
+        "DocumentationAggregator.enterDocumented_command",
     ]),
     ("src/cminx/documentation_types.py", [
         "FunctionDocumentation.process",
@@ -131,6 +141,19 @@ def coq_type(t, top=True):
         return "Aggregator.await"
     if t == "modctx":
         return "str"
+    if t == "doccmd":
+        return "str * Parser.cmd" if top else "(str * Parser.cmd)"
+    if t == "doccomment":
+        return "str"
+    if t == "settings":
+        return "py_settings"
+    if t == "method":
+        return "DocTypes.method"
+    if t == "attribute":
+        return "DocTypes.attribute"
+    if isinstance(t, tuple) and t[0] == "record":
+        r = " * ".join(coq_type(ft, False) for _, ft, _ in t[2])
+        return r if top else "(" + r + ")"
     if isinstance(t, tuple) and t[0] == "refs":
         return "list nat"
     if isinstance(t, tuple) and t[0] == "ref":
@@ -159,6 +182,12 @@ def default_of(t):
         return "[]"
     if t == "arg":
         return "py_no_arg"
+    if t == "bool":
+        return "false"
+    if isinstance(t, tuple) and t[0] == "opt":
+        return "None"
+    if isinstance(t, tuple) and t[0] == "record":
+        return "(" + ", ".join(default_of(ft) for _, ft, _ in t[2]) + ")"
     raise Unsupported(f"{Ctx.file}: no default value for element type {t!r}")
 
 
@@ -290,10 +319,19 @@ class Module:
                 return "arg"        # the aggregator only passes argument contexts under this annotation
             if a.id == "DocumentationType":
                 return "entry"
+            if a.id in SETTINGS_CLASSES:
+                return "settings"       # only as the type of a FIELD (a parameter of that type is special)
+            if a.id in REF_CLASSES:
+                # an object of one of these classes that is held in a field / record / list is an
+                # element of self.documented: its position there
+                return ("ref", DOCUMENTED)
+            if a.id in self.classes and a.id not in self.enums and self.is_dataclass(a.id):
+                return self.record_type(a.id)
             return None
         if isinstance(a, ast.Attribute) and isinstance(a.value, ast.Name) and a.value.id == "CMakeParser":
             return {"Command_invocationContext": "cmd", "Single_argumentContext": "arg",
-                    "Compound_argumentContext": "arg", "Documented_moduleContext": "modctx"}.get(a.attr)
+                    "Compound_argumentContext": "arg", "Documented_moduleContext": "modctx",
+                    "Documented_commandContext": "doccmd"}.get(a.attr)
         if isinstance(a, ast.Subscript) and isinstance(a.value, ast.Name):
             if a.value.id in ("List", "Tuple", "list", "tuple", "Sequence"):
                 inner = self.annotation(a.slice)
@@ -316,6 +354,39 @@ class Module:
                         return ("union", u[1])      # a member of the Enum class or a str
             return None
         return None
+
+    def is_dataclass(self, cname):
+        c = self.classes[cname]
+        return any(isinstance(d, ast.Name) and d.id == "dataclass" for d in c.decorator_list) and not c.bases
+
+    def record_type(self, cname):
+        """a plain @dataclass of the module without base classes and methods: the tuple of its fields
+        -> ('record', name, ((field, type, default constant as Gallina text or None), ...))"""
+        c = self.classes[cname]
+        fs = []
+        for m in c.body:
+            if isinstance(m, ast.Expr) and isinstance(m.value, ast.Constant) and isinstance(m.value.value, str):
+                continue
+            if not (isinstance(m, ast.AnnAssign) and isinstance(m.target, ast.Name)):
+                fail(m, f"member of the dataclass {cname} that is not an annotated field")
+            ft = self.annotation(m.annotation)
+            if ft is None or ft == "await":
+                fail(m, f"field of the dataclass {cname} without a type of the subset")
+            dflt = None
+            if m.value is not None:
+                if isinstance(m.value, ast.Constant) and isinstance(m.value.value, bool) and ft == "bool":
+                    dflt = "true" if m.value.value else "false"
+                elif isinstance(m.value, ast.Constant) and m.value.value is None and isinstance(ft, tuple) \
+                        and ft[0] == "opt":
+                    dflt = "None"
+                else:
+                    fail(m, f"default value of a field of the dataclass {cname}")
+            elif fs and fs[-1][2] is not None:
+                fail(m, "field without default after a field with default")
+            fs.append((m.target.id, ft, dflt))
+        if len(fs) != 2:
+            fail(c, f"dataclass {cname} with other than two fields (records are pairs: fst / snd)")
+        return ("record", cname, tuple(fs))
 
     def fields(self, cname):
         """ordered {field: type or None} of a class: dataclass-style annotated class attributes
@@ -369,6 +440,9 @@ def target_names(stmts, in_loop=False):
             add(t.id)
         elif isinstance(t, ast.Attribute) and isinstance(t.value, ast.Name) and t.value.id == "self":
             add("self." + t.attr)
+        elif isinstance(t, ast.Attribute) and t.attr in OBJECT_ATTRS \
+                and not (isinstance(t.value, ast.Name) and t.value.id == "self"):
+            add(DOCUMENTED)     # R.has_kwargs = v / R.members.append(v): the object R denotes is in self.documented
         elif isinstance(t, ast.Attribute) and isinstance(t.value, ast.Attribute) \
                 and isinstance(t.value.value, ast.Name) and t.value.value.id == "self":
             add(f"self.{t.value.attr}.{t.attr}")        # self.writer.title
@@ -382,12 +456,32 @@ def target_names(stmts, in_loop=False):
     def calls(e):
         for c in ast.walk(e):
             if isinstance(c, ast.Call) and isinstance(c.func, ast.Attribute):
+                if c.func.attr in ("extend", "pop"):
+                    lhs(c.func.value)
+                if c.func.attr == "append" and isinstance(c.func.value, ast.Attribute) \
+                        and isinstance(c.func.value.value, ast.Name) and c.func.value.value.id == "self" \
+                        and c.func.value.attr in IDENTITY_FIELDS:
+                    continue
                 if c.func.attr in ("append", "insert"):
                     lhs(c.func.value)
+                    if c.func.attr == "append" and isinstance(c.func.value, ast.Attribute) \
+                            and REF_LIST_ATTRS.get(c.func.value.attr, (0, 0, None))[2] is not None \
+                            and len(c.args) == 1 and isinstance(c.args[0], ast.Name):
+                        add("$loc of " + c.args[0].id)      # where the appended local object is stored
                     if c.func.attr == "insert" and isinstance(c.func.value, ast.Name):
                         add("@shift:" + c.func.value.id)    # the references into that list move
                 elif c.func.attr in WRITER_METHODS:
                     add(WORLD)
+                elif isinstance(c.func.value, ast.Name) and c.func.value.id == "self" and c.func.attr in METHODS:
+                    for f_, _ in METHODS[c.func.attr]["out"]:
+                        add("self." + f_)
+            prefix = getattr_dispatch_prefix(c) if isinstance(c, ast.Call) else None
+            if prefix is not None:
+                # getattr(self, f"<prefix>{..}")(..): any translated method with that prefix may run
+                for m_, info in METHODS.items():
+                    if m_.startswith(prefix):
+                        for f_, _ in info["out"]:
+                            add("self." + f_)
 
     def go(ss):
         for st in ss:
@@ -419,6 +513,8 @@ def escapes(stmts):
     for st in stmts:
         if isinstance(st, (ast.Return, ast.Raise, ast.Break, ast.Continue)):
             return True
+        if may_raise(st):
+            return True
         if isinstance(st, ast.If) and (escapes(st.body) or escapes(st.orelse)):
             return True
         if isinstance(st, ast.Try) and (escapes(st.body) or any(escapes(h.body) for h in st.handlers)):
@@ -426,6 +522,55 @@ def escapes(stmts):
         if isinstance(st, ast.For):
             if any(isinstance(n, (ast.Return, ast.Raise)) for s2 in st.body for n in ast.walk(s2)):
                 return True
+    return False
+
+
+def is_settings_dict_lookup(e):
+    """self.<f>.<group>.__dict__[KEY]"""
+    return (isinstance(e, ast.Subscript) and isinstance(e.value, ast.Attribute) and e.value.attr == "__dict__"
+            and isinstance(e.value.value, ast.Attribute) and isinstance(e.value.value.value, ast.Attribute)
+            and isinstance(e.value.value.value.value, ast.Name) and e.value.value.value.value.id == "self")
+
+
+def is_accessor_chain(e):
+    """x.a.b / x.command_invocation().start.line : attribute reads and the argument-less accessors of parser contexts"""
+    while True:
+        if isinstance(e, ast.Attribute):
+            e = e.value
+        elif isinstance(e, ast.Call) and not e.args and not e.keywords and isinstance(e.func, ast.Attribute) \
+                and e.func.attr in ("command_invocation", "bracket_doccomment", "Identifier"):
+            e = e.func.value
+        else:
+            return isinstance(e, ast.Name)
+
+
+def getattr_dispatch_prefix(c):
+    """c = getattr(self, f"<constant prefix>{..}")(..)  ->  the constant prefix, else None"""
+    if isinstance(c, ast.Call) and isinstance(c.func, ast.Call) and isinstance(c.func.func, ast.Name) \
+            and c.func.func.id == "getattr" and len(c.func.args) == 2 and not c.func.keywords \
+            and isinstance(c.func.args[0], ast.Name) and c.func.args[0].id == "self" \
+            and isinstance(c.func.args[1], ast.JoinedStr) and c.func.args[1].values \
+            and isinstance(c.func.args[1].values[0], ast.Constant) and isinstance(c.func.args[1].values[0].value, str) \
+            and c.func.args[1].values[0].value:
+        return c.func.args[1].values[0].value
+    return None
+
+
+def may_raise(st):
+    """statements of the subset that can raise an exception other than by a raise statement: xs.pop() on an
+    empty list, a call of a translated method that can raise, the reflective dispatch getattr(self, ..)(..),
+    an if whose test is a settings __dict__ lookup"""
+    if isinstance(st, ast.Expr) and isinstance(st.value, ast.Call):
+        c = st.value
+        if isinstance(c.func, ast.Attribute) and c.func.attr == "pop" and not c.args and not c.keywords:
+            return True
+        if isinstance(c.func, ast.Attribute) and isinstance(c.func.value, ast.Name) and c.func.value.id == "self" \
+                and c.func.attr in METHODS and METHODS[c.func.attr]["has_raise"]:
+            return True
+        if getattr_dispatch_prefix(c) is not None:
+            return True
+    if isinstance(st, ast.If) and is_settings_dict_lookup(st.test):
+        return True
     return False
 
 
@@ -474,6 +619,50 @@ ENTRY_CONSTRUCTORS = {
                                                         ("lit", "false")]),
 }
 ENTRY_RECOGNIZERS = {"ModuleDocumentation": "py_is_module_entry"}
+# ---- batch 4: the declared representation tables of the stateful aggregator methods ----
+# More constructors of Model.DocTypes.entry (kept apart from the table above so that what the earlier
+# batches accept does not change).  Slot kind "empty": the Python argument must be the literal [].
+ENTRY_CONSTRUCTORS_4 = {
+    "FunctionDocumentation": ("DocTypes.EFunction false", 4, [("str", 0), ("str", 1), ("liststr", 2), ("bool", 3)]),
+    "MacroDocumentation": ("DocTypes.EFunction true", 4, [("str", 0), ("str", 1), ("liststr", 2), ("bool", 3)]),
+    "ClassDocumentation": ("DocTypes.EClass", 7, [("str", 0), ("str", 1), ("liststr", 2), ("empty", 3), ("empty", 4),
+                                                  ("empty", 5), ("empty", 6)]),
+}
+# Objects that live INSIDE a class entry (values of Model.DocTypes.method / attribute; is_macro keeps its
+# dataclass default False; the ghost fields m_docd / a_docd of the model do not exist in Python: false)
+PART_CONSTRUCTORS = {
+    "MethodDocumentation": ("py_new_method", 6, [("str", 0), ("str", 1), ("str", 2), ("liststr", 3), ("liststr", 4),
+                                                 ("bool", 5)], "method"),
+    "AttributeDocumentation": ("py_new_attribute", 4, [("str", 0), ("str", 1), ("str", 2), ("opt", 3)], "attribute"),
+}
+# Classes whose instances, when held in a field / a dataclass record / a list, are elements of
+# self.documented and are represented by their POSITION there; the value is the isinstance test
+REF_CLASSES = {"AbstractCommandDefinitionDocumentation": "py_is_command_definition_entry",
+               "ClassDocumentation": "py_is_class_entry"}
+# R.<attr>.append(E) for a reference R:  attr -> (entry update, type of E, how a later reference to E is
+# written as an Aggregator.await, given the Gallina text of R)
+REF_LIST_ATTRS = {
+    "inner_classes": ("py_entry_add_inner_class", "entry", None),
+    "constructors": ("py_entry_add_constructor", "method", "Aggregator.AwMethod {r} true"),
+    "members": ("py_entry_add_member", "method", "Aggregator.AwMethod {r} false"),
+    "attributes": ("py_entry_add_attribute", "attribute", None),
+}
+# R.<attr> = E for a reference R:  attr -> (entry update, type of E)
+REF_SET_ATTRS = {"has_kwargs": ("py_entry_set_has_kwargs", "bool")}
+# The awaiting slot (a field of type Aggregator.await): the classes whose objects may be stored there from
+# self.documented (AwTop), and what the slot's object answers to isinstance
+AWAIT_TOP_CLASSES = {"TestDocumentation", "SectionDocumentation"}
+AWAIT_RECOGNIZERS = {"MethodDocumentation": "py_await_is_method"}
+# A.<attr> = E  /  A.<attr>.extend(E)  through the awaiting slot A: (update of an entry, update of a method, type of E)
+AWAIT_SET_ATTRS = {"is_macro": ("py_entry_set_is_macro", "py_method_set_is_macro", "bool")}
+AWAIT_EXTEND_ATTRS = {"params": ("py_entry_extend_params", "py_method_extend_params", ("list", "str"))}
+# a field that holds parser contexts only for object-identity membership tests: appends to it are not part of
+# the translated state (see `ctx in self.consumed`)
+IDENTITY_FIELDS = {"consumed"}
+OBJECT_ATTRS = set(REF_LIST_ATTRS) | set(REF_SET_ATTRS) | set(AWAIT_SET_ATTRS) | set(AWAIT_EXTEND_ATTRS)
+# names that dir(self) has from the ANTLR runtime base class ParseTreeListener (not part of the repository)
+RUNTIME_LISTENER_NAMES = ["visitTerminal", "visitErrorNode", "enterEveryRule", "exitEveryRule"]
+LISTENER_FILE = "src/cminx/parser/CMakeListener.py"
 VARTYPES = {"STRING": "DocTypes.VString", "LIST": "DocTypes.VList", "UNSET": "DocTypes.VUnset"}
 DOCUMENTED = "self.documented"      # THE list of documentation objects (index space of `await`)
 LOG_METHODS = {"debug", "info", "warning", "error", "critical", "exception"}
@@ -518,6 +707,16 @@ class Fn:
         self.field_types = {}
         self.coq_names = {}             # Gallina binder -> the python variable it stands for
         self.out_fields = [n[5:] for n in target_names(self.stmts) if n.startswith("self.")]
+        self.local_classes = {}     # local name -> the documentation class it is constructed with (None: several)
+        for n in ast.walk(scan):
+            if isinstance(n, ast.Assign) and len(n.targets) == 1 and isinstance(n.targets[0], ast.Name):
+                cls = n.value.func.id if isinstance(n.value, ast.Call) and isinstance(n.value.func, ast.Name) else None
+                nm = n.targets[0].id
+                self.local_classes[nm] = cls if self.local_classes.get(nm, cls) == cls else None
+        self.load_counts = {}
+        for n in ast.walk(scan):
+            if isinstance(n, ast.Name) and isinstance(n.ctx, ast.Load):
+                self.load_counts[n.id] = self.load_counts.get(n.id, 0) + 1
         self.inplace_mutated = set()
         for n in ast.walk(scan):
             if isinstance(n, ast.Call) and isinstance(n.func, ast.Attribute) and n.func.attr in ("append", "insert"):
@@ -549,7 +748,11 @@ class Fn:
                 if isinstance(x, ast.Attribute) and isinstance(x.value, ast.Name) and x.value.id == "self":
                     if x.attr not in self.optional:
                         self.optional.append(x.attr)
-        self.has_raise = any(isinstance(n, ast.Raise) for n in ast.walk(scan))
+        self.has_raise = any(isinstance(n, ast.Raise) for n in ast.walk(scan)) or any(
+            isinstance(n, ast.Call) and isinstance(n.func, ast.Attribute) and isinstance(n.func.value, ast.Name)
+            and n.func.value.id == "self" and n.func.attr in METHODS and METHODS[n.func.attr]["has_raise"]
+            and METHODS[n.func.attr]["cname"] == cname for n in ast.walk(scan)) or any(
+            isinstance(n, ast.stmt) and may_raise(n) for n in ast.walk(scan))
         self.has_return = any(isinstance(n, ast.Return) and n.value is not None for n in ast.walk(scan))
         for n in ast.walk(scan):
             if isinstance(n, (ast.Lambda, ast.FunctionDef, ast.AsyncFunctionDef, ast.ClassDef)) and n is not fn:
@@ -608,7 +811,7 @@ class Fn:
         t = self.fields[attr]
         if t is None:
             fail(node, f"no usable type annotation for field self.{attr}")
-        if attr in self.optional and not (isinstance(t, tuple) and t[0] == "opt"):
+        if attr in self.optional and t != "await" and not (isinstance(t, tuple) and t[0] == "opt"):
             note = (f"self.{attr} is compared with None in this function: it is translated as "
                     f"Optional[{coq_type(t)}] although its annotation does not say so")
             if note not in self.notes:
@@ -651,6 +854,8 @@ class Fn:
             coq = WORLD
         elif key.startswith("$index of "):
             coq = mangle(key[10:]) + "_index"
+        elif key.startswith("$loc of "):
+            coq = mangle(key[8:]) + "_loc"
         else:
             coq = mangle(key)
             while coq in GLOBAL_NAMES:      # never capture a generated global
@@ -696,6 +901,18 @@ class Fn:
                 fail(e, "attribute of a referenced documentation object other than .name")
             lst = self.lookup(ast.copy_location(ast.Name(id=r.type[1], ctx=ast.Load()), e), env)[1]
             return f"py_entry_name (py_deref {lst.coq} {r.coq})", "str"
+        sf = self.settings_field(e, env)
+        if sf is not None:
+            # self.<settings field>.<group>.<option>: looked up BY NAME in the one settings argument
+            return f"py_setting_{sf[2]} {sf[0]} {paren_arg(pystr(sf[1]))}", sf[2]
+        if isinstance(e, ast.Attribute) and isinstance(e.value, ast.Name) and e.value.id in env \
+                and isinstance(env[e.value.id].type, tuple) and env[e.value.id].type[0] == "record":
+            # a field of a dataclass record (a pair)
+            rv = env[e.value.id]
+            for i, (fname, ft, _) in enumerate(rv.type[2]):
+                if fname == e.attr:
+                    return f"({('fst', 'snd')[i]} {rv.coq})", ft
+            fail(e, f"the dataclass {rv.type[1]} has no field {e.attr}")
         if isinstance(e, ast.Attribute) and isinstance(e.value, ast.Attribute) \
                 and isinstance(e.value.value, ast.Name) and e.value.value.id in self.settings_params:
             # settings.<group>.<option>: an argument of the translated function
@@ -784,6 +1001,141 @@ class Fn:
         if isinstance(e, ast.Call):
             return self.call(e, env)
         fail(e, "expression")
+
+    def settings_field(self, e, env):
+        """self.<F>.<group>.<option> for a field F annotated Settings -> (Gallina name of the settings
+        argument, 'group.option', 'str' | 'bool'), or None when e has not that shape"""
+        if not (isinstance(e, ast.Attribute) and isinstance(e.value, ast.Attribute)
+                and isinstance(e.value.value, ast.Attribute) and isinstance(e.value.value.value, ast.Name)
+                and e.value.value.value.id == "self" and self.cname
+                and self.fields.get(e.value.value.attr) == "settings"):
+            return None
+        group, option = e.value.attr, e.attr
+        try:
+            gann, _ = SETTINGS_CLASSES["Settings"][group]
+            oann, _ = SETTINGS_CLASSES[gann.id][option]
+        except (KeyError, AttributeError):
+            fail(e, "settings option that config.py does not declare")
+        ty = self.mod.annotation(oann)
+        if ty not in ("str", "bool"):
+            fail(e, "settings option of a type other than str / bool")
+        v = self.read_field(e.value.value, env, "self." + e.value.value.attr)
+        return v.coq, f"{group}.{option}", ty
+
+    def documented_var(self, node, env):
+        """the Var of THE list of documentation objects"""
+        if not self.cname or self.fields.get(DOCUMENTED[5:]) != ("list", "entry"):
+            fail(node, f"a reference to a documentation object in a class without the field {DOCUMENTED}")
+        if DOCUMENTED in env:
+            return env[DOCUMENTED]
+        return self.read_field(node, env, DOCUMENTED)
+
+    def as_type(self, a, env, want, what):
+        """the Python expression a as a Gallina term of type want.  A local documentation object that was
+        appended to self.documented is, as a reference, the position at which it was appended."""
+        ref = ("ref", DOCUMENTED)
+        if want in (ref, ("opt", ref)) and isinstance(a, ast.Name) and a.id in env and env[a.id].type == "entry":
+            if env[a.id].index is None:
+                fail(a, f"{what}: the object {a.id} is kept as a reference but was not appended to "
+                        f"{DOCUMENTED} before")
+            return env[a.id].index if want == ref else f"(Some {env[a.id].index})"
+        x, t = self.expr(a, env)
+        if t == want:
+            return x
+        if unify(t, want) != want:
+            fail(a, f"{what} has type {t}, expected {want}")
+        return self.coerce(x, t, want)
+
+    def object_update(self, st, recv, upd, x, env, cont):
+        """the statement mutates, through the expression recv, an object that is an element of
+        self.documented: update that element"""
+        ref = ("ref", DOCUMENTED)
+        r, tr = self.expr(recv, env)
+        if tr not in (ref, ("opt", ref)):
+            fail(st, f"mutation of an object reached through a value of type {tr} (not a reference into "
+                     f"{DOCUMENTED})")
+        lv = self.documented_var(st, env)
+        comb = "py_ref_update" if tr == ref else "py_optref_update"
+        rhs = f"{comb} {lv.coq} {paren_arg(r)} ({upd} {paren_arg(x)})"
+        return self.mutate(env, DOCUMENTED, lv, rhs, lv.type, lambda envx: cont(envx, r, tr))
+
+    def dir_names(self, node, prefix):
+        """the names in dir(self) that start with prefix: methods and class attributes of the class body, the
+        self.<f> fields of __init__; the base classes contribute none (checked: the generated parser listener
+        of the repository and the ANTLR runtime's ParseTreeListener; object only has dunder names)"""
+        c = self.mod.classes[self.cname]
+        names = []
+        for m in c.body:
+            n_ = m.name if isinstance(m, ast.FunctionDef) else \
+                m.target.id if isinstance(m, ast.AnnAssign) and isinstance(m.target, ast.Name) else None
+            if n_ and n_.startswith(prefix) and n_ not in names:
+                names.append(n_)
+        for f_ in self.mod.fields(self.cname):
+            if f_.startswith(prefix) and f_ not in names:
+                names.append(f_)
+        for b in c.bases:
+            if not (isinstance(b, ast.Name) and b.id == "CMakeListener"):
+                fail(node, f"dir(self) in a class with a base class other than CMakeListener")
+            if BASE_LISTENER_NAMES is None:
+                fail(node, f"dir(self): {LISTENER_FILE} could not be read")
+            bad = [n_ for n_ in list(BASE_LISTENER_NAMES) + RUNTIME_LISTENER_NAMES if n_.startswith(prefix)]
+            if bad or prefix.startswith("_"):
+                fail(node, f"dir(self): inherited names {bad} start with {prefix!r}")
+        return names
+
+    def await_update(self, st, slot, tables, attr, x, env, cont):
+        """mutation of the object the awaiting slot refers to"""
+        a, ta = self.expr(slot, env)
+        if ta != "await":
+            fail(st, f".{attr} of a value of type {ta}")
+        fe, fm, _ = tables[attr]
+        lv = self.documented_var(st, env)
+        rhs = f"py_await_update {lv.coq} {paren_arg(a)} ({fe} {paren_arg(x)}) ({fm} {paren_arg(x)})"
+        return self.mutate(env, DOCUMENTED, lv, rhs, lv.type, cont)
+
+    def method_call(self, st, e, env, cont):
+        """self.m(args) as a statement, for a method m translated before: its result is bound to the
+        fields it assigns"""
+        info = METHODS[e.func.attr]
+        kw = {}
+        for k_ in e.keywords:
+            if k_.arg is None or k_.arg in kw:
+                fail(e, "** argument / repeated keyword")
+            kw[k_.arg] = k_.value
+        if any(isinstance(a, ast.Starred) for a in e.args) or len(e.args) > len(info["params"]):
+            fail(e, "call with starred / too many arguments")
+        texts = []
+        for i, (pn, pt, dflt) in enumerate(info["params"]):
+            if i < len(e.args):
+                if pn in kw:
+                    fail(e, f"argument {pn} given twice")
+                a = e.args[i]
+            elif pn in kw:
+                a = kw.pop(pn)
+            elif dflt is not None:
+                a = dflt
+            else:
+                fail(e, f"call without the argument {pn}")
+            texts.append(paren_arg(self.as_type(a, env, pt, f"argument {pn} of {e.func.attr}")))
+        if kw:
+            fail(e, f"unknown keyword arguments {sorted(kw)}")
+        for f_, ft in info["field_params"]:
+            v = env["self." + f_] if "self." + f_ in env else self.read_field(st, env, "self." + f_)
+            if v.type != ft:
+                fail(e, f"field self.{f_} has type {v.type} here and {ft} in {e.func.attr}")
+            texts.append(v.coq)
+        call = info["name"] + " " + " ".join(texts)
+        envx = env
+        names = []
+        for f_, ft in info["out"]:
+            envx, c = self.bind(envx, "self." + f_, ft)
+            names.append(c)
+        if info["has_raise"]:
+            if self.loops:
+                fail(st, "call of a method that can raise inside a loop")
+            return (f"match {call} with\n| None => None\n| Some {paren_arg(tup_expr(names))} =>\n"
+                    f"{ind(paren(cont(envx)), 4)}\nend")
+        return let(tup_pat(names), call, cont(envx))
 
     def settings_option(self, e, env):
         """settings.<group>.<option> for a parameter annotated Settings: an argument of the translated
@@ -966,8 +1318,13 @@ class Fn:
             fail(e, "keyword arguments")
         f = e.func
         # ---- documentation objects: constructors of Model.DocTypes.entry
-        if isinstance(f, ast.Name) and f.id in ENTRY_CONSTRUCTORS and f.id not in env:
-            head, arity, slots = ENTRY_CONSTRUCTORS[f.id]
+        if isinstance(f, ast.Name) and f.id not in env \
+                and (f.id in ENTRY_CONSTRUCTORS or f.id in ENTRY_CONSTRUCTORS_4 or f.id in PART_CONSTRUCTORS):
+            result_t = "entry"
+            if f.id in PART_CONSTRUCTORS:
+                head, arity, slots, result_t = PART_CONSTRUCTORS[f.id]
+            else:
+                head, arity, slots = (ENTRY_CONSTRUCTORS.get(f.id) or ENTRY_CONSTRUCTORS_4[f.id])
             if len(e.args) != arity or any(isinstance(a, ast.Starred) for a in e.args):
                 fail(e, f"{f.id} with other than {arity} positional arguments")
             out = [head]
@@ -980,6 +1337,11 @@ class Fn:
                 if kind == "const":
                     if not (isinstance(a, ast.Constant) and a.value == slot[2]):
                         fail(a, f"argument {slot[1]} of {f.id} must be the constant {slot[2]!r}")
+                    continue
+                if kind == "empty":
+                    if not (isinstance(a, ast.List) and not a.elts):
+                        fail(a, f"argument {slot[1]} of {f.id} must be the literal []")
+                    out.append("[]")
                     continue
                 if kind == "vartype":
                     if not (isinstance(a, ast.Attribute) and isinstance(a.value, ast.Name)
@@ -997,7 +1359,22 @@ class Fn:
                 if unify(tx, want) != want:
                     fail(a, f"argument {slot[1]} of {f.id} has type {tx}, expected {want}")
                 out.append(paren_arg(self.coerce(x, tx, want)))
-            return "(" + " ".join(out) + ")", "entry"
+            return "(" + " ".join(out) + ")", result_t
+        # ---- a plain dataclass of the module: the pair of its fields
+        if isinstance(f, ast.Name) and f.id in self.mod.classes and f.id not in env and f.id not in self.mod.enums \
+                and self.mod.is_dataclass(f.id):
+            rt = self.mod.record_type(f.id)
+            if any(isinstance(a, ast.Starred) for a in e.args) or len(e.args) > len(rt[2]):
+                fail(e, f"{f.id} with starred / too many arguments")
+            parts = []
+            for i, (fname, ft, dflt) in enumerate(rt[2]):
+                if i < len(e.args):
+                    parts.append(self.as_type(e.args[i], env, ft, f"field {fname} of {f.id}"))
+                elif dflt is not None:
+                    parts.append(dflt)
+                else:
+                    fail(e, f"{f.id} without a value for the field {fname}")
+            return "(" + ", ".join(parts) + ")", rt
         # ---- the parser-context protocol
         if isinstance(f, ast.Name) and f.id == "isinstance" and len(e.args) == 2:
             x, tx = self.expr(e.args[0], env)
@@ -1007,6 +1384,16 @@ class Fn:
                 return f"py_is_compound {paren_arg(x)}", "bool"
             if tx == "entry" and isinstance(c, ast.Name) and c.id in ENTRY_RECOGNIZERS and c.id not in env:
                 return f"{ENTRY_RECOGNIZERS[c.id]} {paren_arg(x)}", "bool"
+            if tx == "await" and isinstance(c, ast.Name) and c.id in AWAIT_RECOGNIZERS and c.id not in env:
+                return f"{AWAIT_RECOGNIZERS[c.id]} {paren_arg(x)}", "bool"
+            if isinstance(c, ast.Name) and c.id in REF_CLASSES and c.id not in env:
+                # the class of the object a reference denotes (None is an instance of nothing)
+                if tx == ("ref", DOCUMENTED):
+                    lv = self.documented_var(e, env)
+                    return f"{REF_CLASSES[c.id]} (py_deref {lv.coq} {paren_arg(x)})", "bool"
+                if tx == ("opt", ("ref", DOCUMENTED)):
+                    lv = self.documented_var(e, env)
+                    return f"py_optref_test {lv.coq} {paren_arg(x)} {REF_CLASSES[c.id]}", "bool"
             fail(e, "isinstance outside the parser-context vocabulary")
         if isinstance(f, ast.Attribute) and f.attr == "getText" and not e.args and isinstance(f.value, ast.Call) \
                 and isinstance(f.value.func, ast.Attribute) and f.value.func.attr == "Module_docstring" \
@@ -1015,6 +1402,17 @@ class Fn:
             if tx != "modctx":
                 fail(e, f".Module_docstring() on a value of type {tx}")
             return x, "str"         # a Documented_moduleContext is the text of its Module_docstring token
+        if isinstance(f, ast.Attribute) and f.attr == "lower" and not e.args:
+            # X.Identifier().getText().lower(): the command name, an ASCII identifier by the grammar
+            g = f.value
+            if isinstance(g, ast.Call) and isinstance(g.func, ast.Attribute) and g.func.attr == "getText" \
+                    and not g.args and not g.keywords and isinstance(g.func.value, ast.Call) \
+                    and isinstance(g.func.value.func, ast.Attribute) and g.func.value.func.attr == "Identifier" \
+                    and not g.func.value.args and not g.func.value.keywords:
+                x, tx = self.expr(g.func.value.func.value, env)
+                if tx == "cmd":
+                    return f"py_lower_ascii (py_cmd_identifier {paren_arg(x)})", "str"
+            fail(e, ".lower() on something other than ctx.Identifier().getText() of a command invocation")
         dotted = dotted_name(f)
         if dotted in OPAQUE_CALLS and dotted.split(".")[0] not in env:
             # a pure library call on parameters that are never assigned: an argument of the translated function
@@ -1024,6 +1422,17 @@ class Fn:
             if pname not in self.abstract_params:
                 self.abstract_params[pname] = (OPAQUE_CALLS[dotted], ast.unparse(e))
             return pname, OPAQUE_CALLS[dotted]
+        if dotted == "re.sub" and "re" not in env and len(e.args) == 3 \
+                and self.settings_field(e.args[0], env) is not None:
+            # re.sub(self.settings.<group>.<option>, "", x): the settings argument knows what deleting the
+            # matches of that option's regular expression does to a str
+            sv, sk, sty = self.settings_field(e.args[0], env)
+            if sty != "str" or not (isinstance(e.args[1], ast.Constant) and e.args[1].value == ""):
+                fail(e, "re.sub with a settings option that is not a str / a replacement other than ''")
+            x, tx = self.expr(e.args[2], env)
+            if tx != "str":
+                fail(e, f"re.sub on a value of type {tx}")
+            return f"py_setting_re_sub {sv} {paren_arg(pystr(sk))} {paren_arg(x)}", "str"
         if dotted == "re.sub" and "re" not in env:
             if len(e.args) != 3 or not all(isinstance(a, ast.Constant) and isinstance(a.value, str)
                                             for a in e.args[:2]) \
@@ -1033,8 +1442,17 @@ class Fn:
             if tx != "str":
                 fail(e, f"re.sub on a value of type {tx}")
             return f"py_re_sub_cmake_ext {paren_arg(x)}", "str"
+        if isinstance(f, ast.Attribute) and f.attr in ("bracket_doccomment", "command_invocation") and not e.args:
+            # a Documented_commandContext is the pair (text of its bracket_doccomment, its command_invocation)
+            x, tx = self.expr(f.value, env)
+            if tx != "doccmd":
+                fail(e, f".{f.attr}() on a value of type {tx}")
+            return (f"(fst {paren_arg(x)})", "doccomment") if f.attr == "bracket_doccomment" else \
+                (f"(snd {paren_arg(x)})", "cmd")
         if isinstance(f, ast.Attribute) and f.attr in ("getText", "single_argument") and not e.args:
             x, tx = self.expr(f.value, env)
+            if f.attr == "getText" and tx == "doccomment":
+                return x, "str"
             if f.attr == "getText" and tx == "arg":
                 return f"py_get_text {paren_arg(x)}", "str"
             if f.attr == "getText" and tx == "cmd":
@@ -1172,6 +1590,8 @@ class Fn:
                         self.notes.append(note)
                     return "false" if isinstance(op, ast.Is) else "true"
                 x, t = self.expr(l, env)
+                if t == "await":
+                    return ("py_await_is_none " if isinstance(op, ast.Is) else "py_await_is_not_none ") + paren_arg(x)
                 if isinstance(t, tuple) and t[0] == "opt":
                     return ("py_is_none " if isinstance(op, ast.Is) else "py_is_not_none ") + paren_arg(x)
                 fail(e, f"is / is not None on a value of type {t} that is not Optional")
@@ -1184,6 +1604,33 @@ class Fn:
                     eqs.append(self.cond(cmp_, env))
                 c = eqs[0] if len(eqs) == 1 else "(" + " || ".join(eqs) + ")"
                 return c if isinstance(op, ast.In) else f"negb {paren_arg(c)}"
+            if isinstance(op, (ast.In, ast.NotIn)) and isinstance(l, ast.Name) and l.id in self.explicit_keys \
+                    and l.id in env and env[l.id].type == "cmd" and self.field_key(r) is not None \
+                    and self.fields.get(self.field_key(r)[5:]) == ("list", "arg"):
+                # membership of a parser context in a list of contexts held in a field is OBJECT IDENTITY, which
+                # the values Parser.cmd cannot express: an abstract bool argument, provided that neither the
+                # parameter nor the field changes in this function
+                fkey = self.field_key(r)
+                if fkey[5:] in self.out_fields or fkey in self.inplace_mutated or fkey in env \
+                        or l.id in target_names(self.stmts):
+                    fail(e, f"{ast.unparse(e)}: the parameter or the field is assigned in this function")
+                pname = f"{mangle(l.id)}_in_self_{fkey[5:]}"
+                if pname not in self.abstract_params:
+                    self.abstract_params[pname] = ("bool", f"{l.id} in {fkey}")
+                return pname if isinstance(op, ast.In) else f"negb {pname}"
+            if isinstance(op, (ast.In, ast.NotIn)) and isinstance(r, ast.Call) and isinstance(r.func, ast.Name) \
+                    and r.func.id == "dir" and "dir" not in env and len(r.args) == 1 and not r.keywords \
+                    and isinstance(r.args[0], ast.Name) and r.args[0].id == "self" and self.cname:
+                # KEY in dir(self) for KEY = f"<prefix>{..}": the attribute names with that prefix
+                prefix = l.values[0].value if (isinstance(l, ast.JoinedStr) and l.values
+                                               and isinstance(l.values[0], ast.Constant)
+                                               and isinstance(l.values[0].value, str)) else ""
+                if not prefix:
+                    fail(e, "in dir(self) for something other than an f-string with a constant prefix")
+                a, ta = self.expr(l, env)
+                names = "[" + "; ".join(pystr(n_) for n_ in self.dir_names(e, prefix)) + "]"
+                c = f"py_in_list {paren_arg(a)} {names}"
+                return c if isinstance(op, ast.In) else f"negb ({c})"
             a, ta = self.expr(l, env)
             b, tb = self.expr(r, env)
             if isinstance(op, (ast.In, ast.NotIn)):
@@ -1356,16 +1803,77 @@ class Fn:
                     return let(c2, f"py_shift_refs {envx[todo[0]].coq}", shifted(envy, todo[1:]))
                 return self.mutate(env, key, v, f"py_insert_front {v.coq} {paren_arg(x)}",
                                    unify(v.type, ("list", tx)), lambda envx: shifted(envx, refs))
+            if isinstance(e, ast.Call) and isinstance(e.func, ast.Attribute) and isinstance(e.func.value, ast.Name) \
+                    and e.func.value.id == "self" and self.cname and e.func.attr in METHODS \
+                    and METHODS[e.func.attr]["cname"] == self.cname:
+                return self.method_call(st, e, env, cont)
+            if isinstance(e, ast.Call) and isinstance(e.func, ast.Attribute) and e.func.attr == "append" \
+                    and len(e.args) == 1 and not e.keywords and self.cname and self.field_key(e.func.value) is not None \
+                    and self.field_key(e.func.value)[5:] in IDENTITY_FIELDS \
+                    and self.fields.get(self.field_key(e.func.value)[5:]) == ("list", "arg"):
+                # self.consumed.append(<parser context>): only object identity is recorded, which the translated
+                # state does not carry (the later test `ctx in self.consumed` is an abstract argument)
+                x, tx = self.expr(e.args[0], env)
+                if tx not in ("cmd", "doccomment", "arg"):
+                    fail(st, f"append of a value of type {tx} to {self.field_key(e.func.value)}")
+                return cont(env)
+            if isinstance(e, ast.Call) and getattr_dispatch_prefix(e) is not None and self.cname:
+                return self.block([self.dispatch_as_if(st, e)] + rest, env, k)
+            if isinstance(e, ast.Call) and isinstance(e.func, ast.Attribute) and e.func.attr == "pop" \
+                    and not e.args and not e.keywords:
+                # xs.pop() as a statement: IndexError on the empty list
+                key, v = self.lookup(e.func.value, env)
+                if not is_list(v.type) or (v.group is not None and len(v.group) > 1) or self.loops:
+                    fail(st, "pop() on something other than an unaliased list outside loops")
+                self.note_param_mutation(st, key)
+                env2, c = self.bind(env, key, v.type, v.group)
+                return (f"match py_pop {v.coq} with\n| None => None\n| Some {c} =>\n"
+                        f"{ind(paren(cont(env2)), 4)}\nend")
+            if isinstance(e, ast.Call) and isinstance(e.func, ast.Attribute) and e.func.attr == "extend" \
+                    and len(e.args) == 1 and not e.keywords and isinstance(e.func.value, ast.Attribute) \
+                    and e.func.value.attr in AWAIT_EXTEND_ATTRS and self.field_key(e.func.value) is not None \
+                    and self.fields.get(self.field_key(e.func.value.value)[5:] if self.field_key(e.func.value.value)
+                                        else None) == "await":
+                # self.<awaiting slot>.params.extend(xs)
+                x, tx = self.expr(e.args[0], env)
+                want = AWAIT_EXTEND_ATTRS[e.func.value.attr][2]
+                if unify(tx, want) != want:
+                    fail(st, f"extend of .{e.func.value.attr} with a value of type {tx}")
+                return self.await_update(st, e.func.value.value, AWAIT_EXTEND_ATTRS, e.func.value.attr, x, env, cont)
+            if isinstance(e, ast.Call) and isinstance(e.func, ast.Attribute) and e.func.attr == "append" \
+                    and len(e.args) == 1 and not e.keywords and isinstance(e.func.value, ast.Attribute) \
+                    and e.func.value.attr in REF_LIST_ATTRS and self.field_key(e.func.value) is None:
+                # R.<list attribute>.append(E) for an object R that is an element of self.documented
+                upd, et, locfmt = REF_LIST_ATTRS[e.func.value.attr]
+                a0 = e.args[0]
+                x, tx = self.expr(a0, env)
+                if tx != et:
+                    fail(st, f"append of {tx} to .{e.func.value.attr} (expected {et})")
+
+                def after(envx, r, tr):
+                    if locfmt is None or not isinstance(a0, ast.Name):
+                        return cont(envx)
+                    if tr != ("ref", DOCUMENTED):
+                        fail(st, "the appended object stays reachable, but the receiver may be None")
+                    # the object stays reachable through the local name: remember WHERE it is stored
+                    envy, c = self.bind(envx, "$loc of " + a0.id, "await")
+                    return let(c, locfmt.format(r=paren_arg(r)), cont(envy))
+                return self.object_update(st, e.func.value.value, upd, x, env, after)
             if isinstance(e, ast.Call) and isinstance(e.func, ast.Attribute) and e.func.attr == "append" \
                     and len(e.args) == 1 and not e.keywords:
                 key, v = self.lookup(e.func.value, env)
                 self.note_param_mutation(st, key)
-                x, t = self.expr(e.args[0], env)
+                a0 = e.args[0]
+                if is_list(v.type) and isinstance(v.type[1], tuple) and v.type[1][0] in ("ref", "opt", "record") \
+                        and v.type[1] != ("opt", "str"):
+                    x, t = self.as_type(a0, env, v.type[1], f"element appended to {key}"), v.type[1]
+                else:
+                    x, t = self.expr(a0, env)
                 if not is_list(v.type) or unify(v.type, ("list", t)) is None:
                     fail(st, f"append of {t} to a value of type {v.type}")
-                a0 = e.args[0]
                 if key == DOCUMENTED and isinstance(a0, ast.Name) and t == "entry" \
-                        and any(self.fields.get(f) == "await" for f in self.out_fields):
+                        and (any(self.fields.get(f) == "await" for f in self.out_fields)
+                             or self.load_counts.get(a0.id, 0) > 1):
                     # the object stays reachable through the local name: remember WHERE it is stored
                     okey = a0.id
                     env1, ci = self.bind(env, "$index of " + okey, "int")
@@ -1384,6 +1892,9 @@ class Fn:
         if isinstance(st, ast.For):
             return self.for_stmt(st, env, cont)
 
+        if isinstance(st, ast.Try) and self.is_reraise_try(st):
+            # try: BODY except Exception as e: <log>; raise e   -- the exception goes on unchanged: BODY
+            return self.block(list(st.body) + rest, env, k)
         if isinstance(st, ast.Try):
             return self.if_stmt(self.try_as_if(st, env), env, rest, k)
 
@@ -1416,6 +1927,67 @@ class Fn:
             return "None"
 
         fail(st, "statement")
+
+    def is_reraise_try(self, st):
+        """try: .. except Exception as e: x = <attribute chain>; self.logger.<level>(..); raise e"""
+        if len(st.handlers) != 1 or st.orelse or st.finalbody:
+            return False
+        h = st.handlers[0]
+        if not (isinstance(h.type, ast.Name) and h.type.id == "Exception" and h.name and h.body):
+            return False
+        last = h.body[-1]
+        if not (isinstance(last, ast.Raise) and isinstance(last.exc, ast.Name) and last.exc.id == h.name
+                and last.cause is None):
+            return False
+        assigned = set()
+        for b in h.body[:-1]:
+            if isinstance(b, ast.Assign) and len(b.targets) == 1 and isinstance(b.targets[0], ast.Name) \
+                    and is_accessor_chain(b.value):
+                assigned.add(b.targets[0].id)       # reading attributes has no effect
+                continue
+            if isinstance(b, ast.Expr) and isinstance(b.value, ast.Call) and isinstance(b.value.func, ast.Attribute) \
+                    and b.value.func.attr in LOG_METHODS and dotted_name(b.value.func.value) == "self.logger":
+                continue
+            return False
+        return True
+
+    def dispatch_as_if(self, st, e):
+        """getattr(self, KEY)(args) for KEY = f"<prefix>{..}"  ->  the if / elif chain over the attribute names with
+        that prefix:  if KEY == "<name>": self.<name>(args) .. else: raise (AttributeError); a name that is not a
+        method taking these arguments: raise (TypeError)"""
+        prefix = getattr_dispatch_prefix(e)
+        key = e.func.args[1]
+        if any(isinstance(a, ast.Starred) for a in e.args) or any(k_.arg is None for k_ in e.keywords):
+            fail(st, "reflective call with starred arguments")
+        c = self.mod.classes[self.cname]
+        chain = [ast.Raise(exc=None, cause=None)]
+        for n_ in reversed(self.dir_names(st, prefix)):
+            fdef = next((m for m in c.body if isinstance(m, ast.FunctionDef) and m.name == n_), None)
+            body = None
+            if fdef is not None and not fdef.decorator_list and not fdef.args.vararg and not fdef.args.kwarg \
+                    and not fdef.args.kwonlyargs and not fdef.args.posonlyargs:
+                names = [a.arg for a in fdef.args.args][1:]
+                required = names[:len(names) - len(fdef.args.defaults)]
+                given = set(names[:len(e.args)]) | {k_.arg for k_ in e.keywords}
+                if len(e.args) <= len(names) and all(k_.arg in names for k_ in e.keywords) \
+                        and all(r_ in given for r_ in required):
+                    if n_ not in METHODS or METHODS[n_]["cname"] != self.cname:
+                        fail(st, f"reflective call: the method {n_} is not translated (before this function)")
+                    call = ast.Call(func=ast.Attribute(value=ast.Name(id="self", ctx=ast.Load()), attr=n_,
+                                                       ctx=ast.Load()), args=list(e.args), keywords=list(e.keywords))
+                    body = [ast.Expr(value=call)]
+            elif fdef is not None:
+                fail(st, f"reflective call: the method {n_} has a parameter list outside the subset")
+            if body is None:
+                body = [ast.Raise(exc=None, cause=None)]        # not callable like this: TypeError
+            test = ast.Compare(left=key, ops=[ast.Eq()], comparators=[ast.Constant(value=n_)])
+            chain = [ast.If(test=test, body=body, orelse=chain)]
+        node = chain[0]
+        for n in ast.walk(node):
+            if not hasattr(n, "lineno"):
+                ast.copy_location(n, st)
+        ast.fix_missing_locations(node)
+        return node
 
     def note_param_mutation(self, node, key):
         """an explicit list parameter mutated in place is a result of the translated function"""
@@ -1499,6 +2071,8 @@ class Fn:
         t = outs[0][1] if len(outs) == 1 else ("tuple", [x[1] for x in outs])
         self.set_result(node, t)
         self.result_fields = [o[0] for o in outs]
+        self.result_attrs = None if (self.uses_world or self.out_params or self.opts.get("result")) else \
+            [(f, env["self." + f].type) for f in fields]
         x = tup_expr([o[0] for o in outs])
         return f"Some {paren_arg(x)}" if self.has_raise else x
 
@@ -1537,6 +2111,13 @@ class Fn:
                 fail(st, f"{key}[-1] = v while references into {key} are alive")
             self.note_param_mutation(st, key)
             return self.mutate(env, key, v, f"py_set_last {v.coq} {paren_arg(x)}", unify(v.type, ("list", t)), cont)
+        if isinstance(tgt, ast.Attribute) and tgt.attr in AWAIT_SET_ATTRS and self.field_key(tgt.value) is not None \
+                and self.fields.get(self.field_key(tgt.value)[5:]) == "await":
+            # self.<awaiting slot>.is_macro = v
+            x, tx = self.expr(value, env)
+            if tx != AWAIT_SET_ATTRS[tgt.attr][2]:
+                fail(st, f".{tgt.attr} assigned a value of type {tx}")
+            return self.await_update(st, tgt.value, AWAIT_SET_ATTRS, tgt.attr, x, env, cont)
         if isinstance(tgt, ast.Name):
             key = tgt.id
             if key == "self":
@@ -1545,6 +2126,13 @@ class Fn:
             key = self.field_key(tgt)
             if key[5:] not in self.fields:
                 fail(st, f"{key} is not a field declared in the class")
+        elif isinstance(tgt, ast.Attribute) and tgt.attr in REF_SET_ATTRS:
+            # R.<attribute> = v  for an object R that is an element of self.documented
+            upd, vt = REF_SET_ATTRS[tgt.attr]
+            x, tx = self.expr(value, env)
+            if tx != vt:
+                fail(st, f".{tgt.attr} assigned a value of type {tx}")
+            return self.object_update(st, tgt.value, upd, x, env, lambda envx, r, tr: cont(envx))
         elif isinstance(tgt, ast.Attribute) and isinstance(tgt.value, ast.Name) and tgt.value.id in env \
                 and isinstance(env[tgt.value.id].type, tuple) and env[tgt.value.id].type[0] == "ref":
             # r.name = v  through a reference r into a list of documentation objects
@@ -1589,8 +2177,17 @@ class Fn:
         if key.startswith("self.") and self.fields.get(key[5:]) == "await":
             # the one aliasing rule: a field holding a reference to a documentation object is the
             # POSITION of that object in self.documented
+            if isinstance(value, ast.Constant) and value.value is None:
+                env2, c = self.bind(env, key, "await")
+                return let(c, "Aggregator.AwNone", cont(env2))
+            if isinstance(value, ast.Name) and t in ("method",) and ("$loc of " + value.id) in env:
+                # a local object that was appended to a list inside a class entry: the place noted there
+                env2, c = self.bind(env, key, "await")
+                return let(c, env["$loc of " + value.id].coq, cont(env2))
             if not (isinstance(value, ast.Name) and t == "entry" and env[value.id].index is not None):
                 fail(st, f"{key} is assigned something that was not just appended to {DOCUMENTED}")
+            if self.local_classes.get(value.id) not in AWAIT_TOP_CLASSES:
+                fail(st, f"{key} is assigned an object of a class other than {sorted(AWAIT_TOP_CLASSES)}")
             env2, c = self.bind(env, key, "await")
             return let(c, f"Aggregator.AwTop {env[value.id].index}", cont(env2))
         if t == "none":
@@ -1667,7 +2264,46 @@ class Fn:
             return None
         return key, v, isinstance(test.ops[0], ast.IsNot)
 
+    def settings_dict_lookup(self, e, env):
+        """self.<F>.<group>.__dict__[KEY] for a settings field F and KEY = f"<prefix>{..}" -> Gallina of type
+        option bool (None = KeyError): the fields of the group's dataclass in config.py whose names start with the
+        prefix must all be bool, and are listed"""
+        g = e.value.value
+        f_ = g.value.attr
+        if not self.cname or self.fields.get(f_) != "settings":
+            fail(e, "__dict__ of something other than a group of the settings field")
+        key = e.slice
+        prefix = key.values[0].value if (isinstance(key, ast.JoinedStr) and key.values
+                                         and isinstance(key.values[0], ast.Constant)
+                                         and isinstance(key.values[0].value, str)) else ""
+        try:
+            gann, _ = SETTINGS_CLASSES["Settings"][g.attr]
+            members = SETTINGS_CLASSES[gann.id]
+        except (KeyError, AttributeError):
+            fail(e, "settings group that config.py does not declare")
+        names = [n_ for n_ in members if n_.startswith(prefix)]
+        if not prefix or any(self.mod.annotation(members[n_][0]) != "bool" for n_ in names):
+            fail(e, "settings __dict__ lookup whose possible keys are not all bool options")
+        kx, kt = self.expr(key, env)
+        if kt != "str":
+            fail(e, f"__dict__ key of type {kt}")
+        v = self.read_field(g.value, env, "self." + f_)
+        lst = "[" + "; ".join(pystr(n_) for n_ in names) + "]"
+        return f"py_setting_dict_bool {v.coq} {paren_arg(pystr(g.attr))} {lst} {paren_arg(kx)}"
+
     def if_stmt(self, st, env, rest, k):
+        if is_settings_dict_lookup(st.test):
+            # if D[KEY]: A else: B  where the lookup can raise KeyError
+            text = self.settings_dict_lookup(st.test, env)
+            fkey = "settings_flag"
+            if fkey in env or self.loops:
+                fail(st, "settings __dict__ test inside a loop / nested in another one")
+            env2, c = self.bind(env, fkey, "bool")
+            inner = ast.If(test=ast.Name(id=fkey, ctx=ast.Load()), body=st.body, orelse=st.orelse)
+            ast.copy_location(inner, st)
+            ast.copy_location(inner.test, st)
+            body = self.if_stmt(inner, env2, rest, k)
+            return f"match {text} with\n| None => None\n| Some {c} =>\n{ind(paren(body), 4)}\nend"
         # `if X is not None and R: A else: B`  is  `if X is not None: (if R: A else: B) else: B`
         if isinstance(st.test, ast.BoolOp) and isinstance(st.test.op, ast.And):
             nt = self.none_test(st.test.values[0], env)
@@ -1832,8 +2468,12 @@ class Fn:
     def translate(self):
         fn = self.fn
         a = fn.args
-        if a.vararg or a.kwarg or a.kwonlyargs or a.posonlyargs or a.defaults:
-            fail(fn, "parameter list with defaults / varargs / keyword-only parameters")
+        if a.vararg or a.kwarg or a.kwonlyargs or a.posonlyargs:
+            fail(fn, "parameter list with varargs / keyword-only parameters")
+        if any(not isinstance(d, ast.Constant) for d in a.defaults):
+            fail(fn, "parameter default that is not a constant")
+        # (a parameter with a constant default is an ordinary explicit argument of the translated function;
+        #  a call inside the subset passes it explicitly or the translator inserts the constant)
         decos = [d.id for d in fn.decorator_list if isinstance(d, ast.Name)]
         if len(decos) != len(fn.decorator_list) or any(d not in ("staticmethod",) for d in decos):
             fail(fn, "decorator")
@@ -1848,6 +2488,8 @@ class Fn:
             self.fields = {}
         env = {}
         explicit = []
+        defaults = dict(zip([p_.arg for p_ in a.args][len(a.args) - len(a.defaults):], a.defaults))
+        self.param_info = []
         for p in params:
             t = self.mod.annotation(p.annotation)
             special = None
@@ -1872,6 +2514,7 @@ class Fn:
                 self.uses_world = True
             env, c = self.bind(env, p.arg, t)
             explicit.append((c, t))
+            self.param_info.append((p.arg, t, defaults.get(p.arg)))
             self.explicit_keys.add(p.arg)
             if is_list(t) and p.arg in self.inplace_mutated:
                 self.out_params.append(p.arg)
@@ -1950,7 +2593,9 @@ def balanced(x):
     return d == 0
 
 
+BASE_LISTENER_NAMES = None     # method names of the generated parser listener (base class of the aggregator)
 EMITTED = {}    # module-level functions already translated: name -> ([param types], result type)
+METHODS = {}    # methods (without return value) already translated, callable as self.m(..): method name -> info
 GLOBAL_NAMES = set()    # global identifiers of the generated file
 
 
@@ -2050,6 +2695,68 @@ HEADER = """(* GENERATED by translators/py2coq.py from the Python source of CMin
      L.insert(0, e)  also gives  let refs := py_shift_refs refs  for every such refs ;  L[-1] = v is rejected then
      for r in refs: .. r.name ..        py_entry_name (py_deref L r)       (r.name is None: the constant false, names are str)
      r.name = v                         let L := py_set_ref_name L r v in ...
+   Batch 4 (the stateful methods of DocumentationAggregator; combinators in the batch-4 part of Base/PySem.v).
+   Object aliasing is rendered by ONE scheme: the documentation objects that the aggregator shares between
+   self.documented and its stacks / slots are elements of self.documented, and a second reference to such an object
+   is its POSITION in self.documented (append-only, so positions are stable):
+     x = C(..); self.documented.append(x)     let x_index := py_len self_documented in let self_documented := py_append ..
+                                              (x_index is emitted when x is used again after the append)
+     a value of a class in REF_CLASSES (AbstractCommandDefinitionDocumentation, ClassDocumentation) held in a field,
+     a dataclass record or a list             nat (the position) ; Union[.., None]: option nat ; a local x stored there: x_index
+     @dataclass class D: f1: T1; f2: T2 = c   the pair T1 * T2 ; D(a) is (a, c) ; d.f1 / d.f2 are fst d / snd d
+                                              (DefinitionCommand(doc) is (Some doc_index, true); records are not mutated)
+     R.has_kwargs = v                         let self_documented := py_ref_update self_documented R (py_entry_set_has_kwargs v)
+     R.attributes.append(a) .members. ..      let self_documented := py_ref_update self_documented R (py_entry_add_attribute a)
+                                              py_optref_update when R is Optional (unchanged on None, where Python raises)
+     R.inner_classes.append(c)                py_entry_add_inner_class c : DocTypes.EClass keeps the names of the inner classes
+     isinstance(R, C) for a reference R       C's recognizer on py_deref self_documented R ; py_optref_test for an Optional R
+     FunctionDocumentation(n, d, ps, kw) / MacroDocumentation(..)            DocTypes.EFunction false/true n d ps kw
+     ClassDocumentation(n, d, supers, [], [], [], [])                        DocTypes.EClass n d supers [] [] [] []
+     MethodDocumentation(n, d, parent, types, params, is_ctor)               py_new_method ..   : DocTypes.method
+     AttributeDocumentation(n, d, parent, default)                           py_new_attribute .. : DocTypes.attribute
+     m = MethodDocumentation(..); R.constructors.append(m) / R.members.append(m)
+                                              also  let m_loc := Aggregator.AwMethod R true / false  (the newest
+                                              constructor / member of the class at R; checked: no untranslated method of
+                                              the class changes such a list), and a later
+     self.documented_awaiting_function_def = m      let self_documented_awaiting_function_def := m_loc
+     self.settings.G.O                        py_setting_str / py_setting_bool self_settings (s'G.O') : options are looked up
+     re.sub(self.settings.G.O, '', x)         py_setting_re_sub self_settings (s'G.O') x    BY NAME in the one settings argument
+                                              (config.py must declare the option with that type)
+     self.m(a, k=b)                           let '(fields m assigns) := C_m a b (fields m reads) in ...   for a method m of
+                                              the same class translated before (defaults of omitted parameters inserted;
+                                              match .. with None => None | Some .. when m can raise)
+     def m(self, x, flag: bool = False)       a parameter with a constant default is an ordinary argument
+   Batch 4, part 2 (enterCommand_invocation):
+     try: B  except Exception as e: x = <attribute chain>; self.logger.error(..); raise e
+                                              B  (the exception goes on unchanged; nothing else is accepted in the handler)
+     xs.pop()   (statement)                   match py_pop xs with None => None | Some xs => ... end     (None: IndexError)
+     ctx.Identifier().getText().lower()       py_lower_ascii (py_cmd_identifier ctx)   (.lower() only there: an ASCII identifier)
+     the awaiting slot S (the field of type Aggregator.await):
+       S is None / S is not None              py_await_is_none S / py_await_is_not_none S
+       isinstance(S, MethodDocumentation)     py_await_is_method S
+       S.is_macro = v                         let self_documented := py_await_update self_documented S (py_entry_set_is_macro v) (py_method_set_is_macro v)
+       S.params.extend(ps)                    .. py_await_update self_documented S (py_entry_extend_params ps) (py_method_extend_params ps)
+       S = None                               let S := Aggregator.AwNone
+       S = x  for x appended to self.documented   only when x was constructed as Test/SectionDocumentation (AwTop x_index)
+     ctx in self.consumed / not in            an abstract bool ARGUMENT ctx_in_self_consumed: membership of a parser context in a
+                                              list of contexts is object identity, which Parser.cmd values cannot express; accepted
+                                              only when neither the parameter nor the field changes in the function
+     KEY in dir(self),  KEY = f'<prefix>{e}'  py_in_list KEY [the attribute names of the class with that prefix, in source order]
+                                              (the base classes contribute none: parser/CMakeListener.py is read and checked)
+     getattr(self, KEY)(args)                 the if / elif chain over the same names:  if KEY == '<name>': self.<name>(args) ...
+                                              else: raise  -- synthesized as Python AST and translated by the ordinary rules; a name
+                                              whose method does not take these arguments: raise (TypeError)
+     if self.settings.G.__dict__[KEY]: A else: B      match py_setting_dict_bool self_settings (s'G') [the bool options of G with KEY's
+                                              prefix] KEY with None => None | Some settings_flag => if settings_flag then A else B end
+     a parameter annotated CMakeParser.Documented_commandContext     the pair  str * Parser.cmd : ctx.bracket_doccomment() is
+                                              fst ctx (getText() of it: that text), ctx.command_invocation() is snd ctx
+     self.consumed.append(<parser context>)   no effect on the translated state: the field only serves the object-identity
+                                              tests above (that enterDocumented_command marks its command_invocation, so that
+                                              the walker's following enterCommand_invocation sees ctx in self.consumed, is the
+                                              model's  agg_step (EDocCmd ..) = enter_documented ; enter_command true  and is
+                                              NOT derived from the source)
+     A statement that can raise without a raise statement (pop, a call of a method that can raise, the reflective call, the
+     __dict__ test) ends its block like raise does: each branch of an enclosing if is followed by its own copy of the rest.
    Abstracted values: the pure library calls os.path.isdir / os.path.relpath / os.path.basename applied to plain
    parameters that are never assigned, and the options settings.<group>.<option> of a parameter annotated Settings
    (typed by the dataclasses of config.py; a field whose default is None is Optional) are ARGUMENTS of the translated
@@ -2102,8 +2809,21 @@ def load_settings_classes(repo):
                                         if isinstance(m, ast.AnnAssign) and isinstance(m.target, ast.Name)}
 
 
+def load_listener_names(repo):
+    global BASE_LISTENER_NAMES
+    path = repo / LISTENER_FILE
+    if path.is_file():
+        try:
+            tree = ast.parse(path.read_text(encoding="utf-8"))
+        except SyntaxError:
+            return
+        BASE_LISTENER_NAMES = [m.name for n in tree.body if isinstance(n, ast.ClassDef) and n.name == "CMakeListener"
+                               for m in n.body if isinstance(m, ast.FunctionDef)]
+
+
 def generate(repo):
     load_settings_classes(repo)
+    load_listener_names(repo)
     out = [HEADER]
     for rel, names in TARGETS:
         Ctx.file = rel
@@ -2116,6 +2836,20 @@ def generate(repo):
         out.append(f"(* ======== {rel} ======== *)")
         for en, members in mod.enums.items():
             GLOBAL_NAMES.update([en, en + "_eqb", en + "_str"] + [f"{en}_{m}" for m in members])
+        # the reference Aggregator.AwMethod r b denotes the NEWEST constructor / member of the class at r: every
+        # append to such a list in a class with translated methods must itself be in a translated method
+        qnames = {(sp if isinstance(sp, str) else sp[0]) for sp in names}
+        for cn, cd in mod.classes.items():
+            if not any(q.startswith(cn + ".") for q in qnames):
+                continue
+            for m in cd.body:
+                if isinstance(m, ast.FunctionDef) and f"{cn}.{m.name}" not in qnames:
+                    for n in ast.walk(m):
+                        if isinstance(n, ast.Call) and isinstance(n.func, ast.Attribute) \
+                                and n.func.attr in ("append", "insert", "extend", "pop", "remove", "clear") \
+                                and isinstance(n.func.value, ast.Attribute) \
+                                and REF_LIST_ATTRS.get(n.func.value.attr, (0, 0, None))[2] is not None:
+                            fail(n, f"{cn}.{m.name} changes a .{n.func.value.attr} list but is not translated")
         need_writer = False
         defs = []
         for spec in names:
@@ -2128,6 +2862,12 @@ def generate(repo):
             GLOBAL_NAMES.add(name)
             if f.cname is None and not f.uses_world:
                 EMITTED[name] = (ptypes, rtype)
+            if f.cname is not None and getattr(f, "result_attrs", None) and not f.abstract_params \
+                    and not f.settings_params and not f.opaque_params and not opts:
+                METHODS[fn.name] = {"cname": f.cname, "name": name, "params": f.param_info,
+                                    "field_params": [(a_, f.field_types[a_]) for a_ in f.fields
+                                                     if a_ in f.field_params],
+                                    "out": f.result_attrs, "has_raise": f.has_raise}
             need_writer = need_writer or f.uses_world
             comment = [f"(* {rel}, {q} (line {fn.lineno})"]
             if f.has_raise:
